@@ -104,6 +104,26 @@ package bus
 //@   modifies o.signal, o.objectID, o.terminate
 //@   ensures[C16] err == nil && o.objectID == activation.ObjectID && o.terminate == activation.Terminate
 
+// Router table: Add inserts exactly the named service when the id is free and refuses a used id
+// without touching the table; Remove deletes exactly the named entry; both inside one critical
+// section and with the lock released on every path.
+//@ func (r *Router) Add(serviceID uint32, s ServiceReceiver) (err error)
+//@   tags C16 C04
+//@   requires !r.RWMutex.lockw && r.RWMutex.lockr == 0 && s != nil
+//@   modifies everything
+//@   ensures[C16,C04] !r.RWMutex.lockw && r.RWMutex.lockr == 0
+//@   ensures[C16] err == nil <==> !at_lock(has(r.services, serviceID))
+//@   ensures[C16] err == nil ==> at_unlock(has(r.services, serviceID)) && at_unlock(r.services[serviceID]) == s
+//@   ensures[C16] forall k uint32 {at_unlock(has(r.services, k))} :: k != serviceID || err != nil ==> (at_unlock(has(r.services, k)) <==> at_lock(has(r.services, k))) && at_unlock(r.services[k]) == at_lock(r.services[k])
+//@ func (r *Router) Remove(serviceID uint32) (err error)
+//@   tags C16 C04
+//@   requires !r.RWMutex.lockw && r.RWMutex.lockr == 0
+//@   modifies everything
+//@   ensures[C16,C04] !r.RWMutex.lockw && r.RWMutex.lockr == 0
+//@   ensures[C16] err == nil <==> at_lock(has(r.services, serviceID))
+//@   ensures[C16] !at_unlock(has(r.services, serviceID))
+//@   ensures[C16] forall k uint32 {at_unlock(has(r.services, k))} :: k != serviceID ==> (at_unlock(has(r.services, k)) <==> at_lock(has(r.services, k))) && at_unlock(r.services[k]) == at_lock(r.services[k])
+
 // Client-side service reference (objects created on the client side of a connection): identifiers
 // are handed out under nextIDMutex, the handler table is touched only under objectsMutex.
 //@ immutable clientService.context
